@@ -86,7 +86,15 @@ def _pos_key(n, rng):
 
 
 def probes(ctx):
-    return []
+    spec = F.FrameSpec([0, 1, 2], ['a', 'b', 'c'], 'auto', 'str', ['int64', 'int64', 'int64'], [[1, 2, 3], [4, 5, 6], [7, 8, 9]], 'nm')
+    two_d = [(0, 3, True)]
+    return [
+        {'kind': 'frame', 'spec': spec, 'layout': two_d, 'iface': 'mask', 'route': 'iloc', 'rowkey': ('int', 0), 'colkey': ('int', 1)},
+        {'kind': 'frame', 'spec': spec, 'layout': two_d, 'iface': 'assign_bloc', 'mask': [[True, False, False]] * 3, 'v': 'x', 'mask_shuffle': False},
+    ] + [
+        {'kind': 'frame', 'spec': spec, 'layout': two_d, 'iface': 'assign', 'route': 'iloc', 'rowkey': ('null',), 'colkey': ('list', [2, 0]),
+         'vshape': 'array', 'vseed': vs, 'fill': None} for vs in range(4)
+    ]
 
 
 def generate(ctx):
